@@ -33,6 +33,10 @@ pub struct ProcSpec {
     /// start the binary in a working directory that no longer exists (made,
     /// entered and removed by a /bin/sh wrapper that then execs the binary)
     pub removed_cwd: bool,
+    /// standard output is a pipe whose reader stalls for this many
+    /// milliseconds before it starts reading (a slow consumer); stderr goes
+    /// to a file
+    pub stalled_stdout_reader_ms: u64,
 }
 
 #[derive(Clone, Debug, PartialEq, Eq)]
@@ -165,7 +169,10 @@ pub fn run(spec: &ProcSpec, scratch: &Scratch, tag: &str) -> Result<ProcResult, 
     };
     let _ = fs::remove_file(&out_path);
     let _ = fs::remove_file(&err_path);
-    if spec.shared_out_err {
+    if spec.stalled_stdout_reader_ms > 0 {
+        cmd.stdout(Stdio::piped())
+            .stderr(Stdio::from(open_append(&err_path)?));
+    } else if spec.shared_out_err {
         let f = open_append(&out_path)?;
         let g = f.try_clone().map_err(|e| e.to_string())?;
         cmd.stdout(Stdio::from(f)).stderr(Stdio::from(g));
@@ -203,6 +210,21 @@ pub fn run(spec: &ProcSpec, scratch: &Scratch, tag: &str) -> Result<ProcResult, 
     } else {
         None
     };
+    // a slow consumer: nothing is read from the pipe for a while (the child
+    // blocks once the pipe is full), then everything is read to the end
+    let stalled_reader = if spec.stalled_stdout_reader_ms > 0 {
+        let mut out = child.stdout.take().unwrap();
+        let ms = spec.stalled_stdout_reader_ms;
+        let path = out_path.clone();
+        Some(std::thread::spawn(move || {
+            std::thread::sleep(std::time::Duration::from_millis(ms));
+            let mut v = Vec::new();
+            let _ = out.read_to_end(&mut v);
+            let _ = fs::write(&path, &v);
+        }))
+    } else {
+        None
+    };
     // bounded wait: a child that runs for CHILD_TIMEOUT_S is killed and
     // reported as timed out (programs here finish in milliseconds)
     let started = std::time::Instant::now();
@@ -224,6 +246,9 @@ pub fn run(spec: &ProcSpec, scratch: &Scratch, tag: &str) -> Result<ProcResult, 
     };
     if let Some(f) = feeder {
         let _ = f.join();
+    }
+    if let Some(r) = stalled_reader {
+        let _ = r.join();
     }
     let read_all = |p: &Path| -> Vec<u8> {
         let mut v = Vec::new();
